@@ -1207,7 +1207,10 @@ int EGLPNUM_TYPENAME_ILLwrite_mps (
 	}
 	for (ri = 0; ri < lp->nstruct; ri++)
 	{
-		if (lp->is_sos_mem == (int *) NULL || lp->is_sos_mem[ri] == -1)
+		/* is_sos_mem is sized for the columns the problem was read with; it only
+		 * matters when there are SOS sets at all */
+		if (lp->sos.matcols == 0 || lp->is_sos_mem == (int *) NULL ||
+				lp->is_sos_mem[ri] == -1)
 		{
 			i = lp->structmap[ri];
 			intmode = mps_write_col (i, ri, colnames[ri], lp, rownames,
